@@ -7,7 +7,7 @@
    and does not disturb a recovery) on every trace in which the application sends no ResendRequest of its own through
    SendToTarget while a TestRequest is pending, refuted without that hypothesis (Session/PendingProofs.v). *)
 From Coq Require Import ZArith List Bool.
-From QF Require Import Base.Bytes Session.Types Session.Model Session.Spec Session.LocalProofs Session.FrameProofs Session.TraceProofs Session.KeepAliveProofs Session.LogonProofs Session.ChunkProofs Session.ResendInvProofs Session.TgProofs Session.KeptProofs Session.StashTypeProofs Session.PendingProofs Session.RecoveryProofs.
+From QF Require Import Base.Bytes Session.Types Session.Model Session.Spec Session.LocalProofs Session.FrameProofs Session.TraceProofs Session.KeepAliveProofs Session.LogonProofs Session.ChunkProofs Session.ResendInvProofs Session.TgProofs Session.KeptProofs Session.StashTypeProofs Session.PendingProofs Session.RecoveryProofs Session.Clock Session.ClockProofs.
 Import ListNotations.
 Open Scope Z_scope.
 
@@ -173,3 +173,62 @@ Proof. exact c20_2005_app_resend_request_refuted. Qed.
 Theorem c20_timers_keep_recovery_on_any_trace : forall c es,
   free_of [406] (c04_check c (combine es (map obs_of (run_trace es (init_sess c))))) = true.
 Proof. exact c04_timers_never_disturb_recovery. Qed.
+
+(* ---- "on the real run loop with real timers": the timed wrapper Session/Clock.v (two one-shot deadlines around `step`,
+   armed as session.go / in_session.go / pending_timeout.go / logon_state.go arm them) ---- *)
+
+(* nothing sent for the heartbeat interval, in session, nothing queued: when the time passes the heartbeat deadline d (and
+   stays before the next deadline) exactly one Heartbeat is written, at d, and the timer is armed for d + HeartBtInt *)
+Theorem c20_clock_heartbeat_when_due : forall rearm c snd tgt msgs hb sr now d p out cl upto,
+  now <= d -> d <= upto -> d < p -> 0 < hb -> upto < d + 1000 * hb -> upto < p ->
+  let ts := {| ts_s := mk c SInSession snd tgt msgs [] hb sr; ts_sd := Some d; ts_pd := Some p; ts_now := now;
+               ts_out := out; ts_closed := cl |} in
+  let ts' := fire_until rearm 2 ts upto in
+  ts_out ts' = (d, heartbeat_msg c snd tgt) :: out /\ ts_sd ts' = Some (d + 1000 * hb) /\ ts_pd ts' = Some p
+  /\ s_st (ts_s ts') = SInSession /\ ts_now ts' = upto.
+Proof. exact clock_heartbeat_when_due. Qed.
+
+(* every step that writes arms the heartbeat timer one interval ahead; every inbound frame arms the peer timer 1.2 ahead *)
+Theorem c20_clock_write_arms : forall rearm ts e,
+  wrote_any (step (ts_s ts) e) = true -> ts_sd (apply_at rearm ts e) = Some (ts_now ts + hb_ms (step (ts_s ts) e)).
+Proof. exact apply_at_arms_on_write. Qed.
+Theorem c20_clock_inbound_arms_peer : forall rearm ts e,
+  kind_of e = KInbound -> ts_pd (apply_at rearm ts e) = Some (ts_now ts + peer_ms (step (ts_s ts) e)).
+Proof. exact apply_at_inbound_arms_peer. Qed.
+
+(* the scenarios of the `clock` stream on the model: the times the implementation shows within a few ms *)
+Example c20_clock_silent_peer :
+  let ts := trun true 50 (tinit (ck_cfg Acceptor 30)) ck_silent in
+  tout ts = [(0, T_LOGON); (1000, T_HEARTBEAT); (1200, T_TESTREQ)] /\ ts_closed ts = [2400]
+  /\ is_logged_on (s_st (ts_s ts)) = false.
+Proof. exact clock_silent_peer. Qed.
+Example c20_clock_silent_peer_second_connection :
+  let ts := trun true 50 (tinit (ck_cfg Acceptor 30)) ck_silent_twice in
+  tout ts = [(0, T_LOGON); (1000, T_HEARTBEAT); (1200, T_TESTREQ); (4000, T_LOGON); (5000, T_HEARTBEAT); (5200, T_TESTREQ)]
+  /\ ts_closed ts = [6400; 2400].
+Proof. exact clock_silent_peer_second_connection. Qed.
+Example c20_clock_live_peer :
+  let ts := trun true 50 (tinit (ck_cfg Acceptor 30)) ck_alive in
+  tout ts = [(0, T_LOGON); (1000, T_HEARTBEAT); (2000, T_HEARTBEAT); (3000, T_HEARTBEAT)] /\ ts_closed ts = [].
+Proof. exact clock_live_peer. Qed.
+
+(* F18 and F23: with the timer rules before the repairs the session ends up logged on with the heartbeat timer not armed
+   (nothing more is ever sent); with the repaired rules the Heartbeats follow *)
+Example c20_clock_late_answer_before_repair_refuted :
+  let ts := trun false 50 (tinit (ck_cfg Acceptor 30)) ck_late in
+  tout ts = [(0, T_LOGON); (2000, T_HEARTBEAT); (2400, T_TESTREQ)]
+  /\ is_logged_on (s_st (ts_s ts)) = true /\ armed ts = false.
+Proof. exact clock_late_answer_before_repair_refuted. Qed.
+Example c20_clock_late_answer_repaired :
+  let ts := trun true 50 (tinit (ck_cfg Acceptor 30)) ck_late in
+  tout ts = [(0, T_LOGON); (2000, T_HEARTBEAT); (2400, T_TESTREQ); (6400, T_HEARTBEAT); (8400, T_HEARTBEAT); (10400, T_HEARTBEAT)]
+  /\ armed ts = true.
+Proof. exact clock_late_answer_repaired. Qed.
+Example c20_clock_initiator_slow_logon_before_repair_refuted :
+  let ts := trun false 50 (tinit (ck_cfg Initiator 1)) ck_slow_logon in
+  tout ts = [(0, T_LOGON)] /\ is_logged_on (s_st (ts_s ts)) = true /\ armed ts = false.
+Proof. exact clock_initiator_slow_logon_before_repair_refuted. Qed.
+Example c20_clock_initiator_slow_logon_repaired :
+  let ts := trun true 50 (tinit (ck_cfg Initiator 1)) ck_slow_logon in
+  tout ts = [(0, T_LOGON); (2000, T_HEARTBEAT); (3000, T_HEARTBEAT); (4000, T_HEARTBEAT)] /\ armed ts = true.
+Proof. exact clock_initiator_slow_logon_repaired. Qed.
